@@ -94,23 +94,42 @@ class Verifier(Exec):
         return None
 
     def map_heaps(self, st, m):
+        """(key, type entry, {leaf: heap of values}, membership heap); values may be scalars or strings"""
         tid = m.tid
         u = self.U(tid)
         key = self.prog.short(tid)
-        vs = self.sort_of(u['elem']) if self.is_scalar(u['elem']) else None
-        if vs is None or not self.is_scalar(u['key']):
-            raise Unsupported('map type %s' % tid)
-        hv = self.heap_get(st, 'MAPV:' + key, arr(arr(vs)))
+        if not (self.is_scalar(u['key']) or self.is_string(u['key'])):
+            raise Unsupported('map key type %s' % u['key'])
+        if self.is_string(u['elem']):
+            leaves = dict((s, self.heap_get(st, 'MAPV:%s.%s' % (key, s), arr(ARR_II))) for s in ('arr', 'off', 'len'))
+        elif self.is_scalar(u['elem']):
+            leaves = {'': self.heap_get(st, 'MAPV:' + key, arr(arr(self.sort_of(u['elem']))))}
+        else:
+            raise Unsupported('map value type %s' % u['elem'])
         hh = self.heap_get(st, 'MAPH:' + key, arr(ARR_IB))
-        return key, u, hv, hh
+        return key, u, leaves, hh
+
+    def map_key_term(self, st, u, k):
+        if isinstance(k, StrV):
+            # strings as keys: identified by an uninterpreted content hash (equal contents give equal keys)
+            self.ctx.declare_fun('str.key', (INT, INT, INT, ARR_II), INT)
+            h = self.heap_get(st, 'HS:uint8', arr(ARR_II))
+            if k.lit is not None:
+                return self.ctx.declare_const('strkey:' + k.lit.hex()[:40], INT)
+            self.trusted.add('string map keys are modelled by an uninterpreted content key')
+            return app('str.key', (k.arr, k.off, k.len, select(h, k.arr)), INT)
+        return self.scalar_term(k)
 
     def map_read(self, st, m, k, has=False):
-        key, u, hv, hh = self.map_heaps(st, m)
+        key, u, leaves, hh = self.map_heaps(st, m)
         present = select(select(hh, m.term), k)
         if has:
             return present
+        if self.is_string(u['elem']):
+            g = lambda s: ite(present, select(select(leaves[s], m.term), k), ZERO)
+            return StrV(g('arr'), g('off'), g('len'))
         zero = FALSE if self.is_bool(u['elem']) else ZERO
-        v = ite(present, select(select(hv, m.term), k), zero)
+        v = ite(present, select(select(leaves[''], m.term), k), zero)
         return self.wrap_scalar(v, u['elem'], st)
 
     def value_typename(self, v):
@@ -509,6 +528,11 @@ class Verifier(Exec):
             loc = loc.strip()
             if loc in ('anything', '*'):
                 regs.append(('any',))
+                continue
+            mm_ = re.match(r'^map\((.*)\)$', loc)
+            if mm_:
+                mv = SpecEval(self, st, env, None, 'modifies ' + loc).ev(parse_expr(mm_.group(1)))
+                regs.append(('map', self.scalar_term(mv)))
                 continue
             initonly = False
             mi = re.match(r'^init\((.*)\)$', loc)
@@ -1285,16 +1309,16 @@ class Verifier(Exec):
         k = const('ap?%d' % nq, INT)
         newv = self.obj_load(st, e, self.elemaddr(darr, add(doff, s.len, k)))
         oldv = self.obj_load(pre, e, self.elemaddr(t.arr, add(t.off, k)))
-        self.ctx.assume(forall([k], implies(and_(le(ZERO, k), lt(k, t.len)), ev.deep_eq(newv, oldv)), [self.elemaddr(darr, add(doff, s.len, k))]))
+        self.ctx.assume(forall([k], implies(and_(le(ZERO, k), lt(k, t.len)), ev.ident_eq(newv, oldv)), [self.elemaddr(darr, add(doff, s.len, k))]))
         # kept elements when reallocated
         newv2 = self.obj_load(st, e, self.elemaddr(na, k))
         oldv2 = self.obj_load(pre, e, self.elemaddr(s.arr, add(s.off, k)))
-        self.ctx.assume(implies(not_(fits), forall([k], implies(and_(le(ZERO, k), lt(k, s.len)), ev.deep_eq(newv2, oldv2)), [self.elemaddr(na, k)])))
+        self.ctx.assume(implies(not_(fits), forall([k], implies(and_(le(ZERO, k), lt(k, s.len)), ev.ident_eq(newv2, oldv2)), [self.elemaddr(na, k)])))
         if t.len.is_int() and t.len.val == 1:
             # the common single-element append: state the fact without a quantifier as well
             nv = self.obj_load(st, e, self.elemaddr(darr, add(doff, s.len)))
             ov = self.obj_load(pre, e, self.elemaddr(t.arr, t.off))
-            self.ctx.assume(ev.deep_eq(nv, ov))
+            self.ctx.assume(ev.ident_eq(nv, ov))
         return res
 
     def do_copy(self, st, ins, args):
@@ -1538,16 +1562,38 @@ class Verifier(Exec):
     def map_lookup(self, st, ins, m, k):
         if not isinstance(m, Opaque):
             raise Unsupported('lookup on %r' % (m,))
-        key, u, hv, hh = self.map_heaps(st, m)
-        self.valid_scalar_heap(hv, u['elem'], True)
-        kt = self.scalar_term(k)
+        key, u, leaves, hh = self.map_heaps(st, m)
+        kt = self.map_key_term(st, u, k)
         v = self.map_read(st, m, kt)
+        if isinstance(v, T):
+            v = self.ctx.name(ins.get('name', 'mv'), v)
+            self.assume_valid(v, u['elem'])
         if ins.get('commaok'):
             return TupleV([v, select(select(hh, m.term), kt)])
         return v
 
     def map_update(self, st, ins):
-        raise Unsupported('map update')
+        m = self.val(st, ins['map'])
+        k = self.val(st, ins['key'])
+        val_ = self.val(st, ins['value'])
+        if not isinstance(m, Opaque):
+            raise Unsupported('map update on %r' % (m,))
+        self.oblige(st, 'nil', 'mapupdate', ne(m.term, ZERO))
+        key, u, leaves, hh = self.map_heaps(st, m)
+        kt = self.map_key_term(st, u, k)
+        if self.writable is not None:
+            self.oblige(st, 'frame', 'map:' + self.cur_detail, or_(*([eq(m.term, r[1]) for r in self.writable if r[0] == 'map'] + [ge(m.term, r[1]) for r in self.writable if r[0] == 'fresh'] + [TRUE for r in self.writable if r[0] == 'any'])))
+        present = select(select(hh, m.term), kt)
+        hn = self.heap_get(st, 'MAPN', ARR_II)
+        st.heap['MAPN'] = store(hn, m.term, ite(present, select(hn, m.term), add(select(hn, m.term), ONE)))
+        st.heap['MAPH:' + key] = store(hh, m.term, store(select(hh, m.term), kt, TRUE))
+        if self.is_string(u['elem']):
+            for s in ('arr', 'off', 'len'):
+                nm = 'MAPV:%s.%s' % (key, s)
+                st.heap[nm] = store(leaves[s], m.term, store(select(leaves[s], m.term), kt, getattr(val_, s)))
+        else:
+            nm = 'MAPV:' + key
+            st.heap[nm] = store(leaves[''], m.term, store(select(leaves[''], m.term), kt, self.scalar_term(val_)))
 
     def do_range(self, st, ins):
         raise Unsupported('range over string/map')
